@@ -270,3 +270,116 @@ func paramName(f *Func, idx int) string {
 }
 
 var _ = strings.Contains
+
+// C09-R9: rows taken out of a combining frame are never dropped.
+//
+// (*combiningFrame).Compact removes rows from the frame and returns them;
+// from that moment the returned frame is the only holder of those rows.  On
+// every path from the call, the result must be handed on (as a call argument —
+// to a combine, a spill, a reader — or returned) before the variable is
+// overwritten, the enclosing loop goes round again, or the function exits.
+func c09r9(c *RC) {
+	pr := c.P
+	n := 0
+	for _, fn := range pr.FuncsIn("exec") {
+		if fn.Body == nil {
+			continue
+		}
+		fl := pr.Flow(fn)
+		ord := 0
+		for _, b := range fl.G.Blocks {
+			if !b.Live {
+				continue
+			}
+			for i, nd := range b.Nodes {
+				for _, k := range callsIn(nd) {
+					if fn.Pkg.CalleeName(k) != "exec.(*combiningFrame).Compact" {
+						continue
+					}
+					n++
+					ord++
+					key := fmt.Sprintf("%s|compacted-rows#%d-handed-on", fn.QName(), ord)
+					// used directly as an argument or returned: nothing to track
+					a, isAssign := nd.(*ast.AssignStmt)
+					if !isAssign || len(a.Lhs) != 1 || len(a.Rhs) != 1 || ast.Unparen(a.Rhs[0]) != ast.Expr(k) {
+						direct := false
+						ast.Inspect(nd, func(m ast.Node) bool {
+							switch x := m.(type) {
+							case *ast.CallExpr:
+								for _, arg := range x.Args {
+									if ast.Unparen(arg) == ast.Expr(k) {
+										direct = true
+									}
+								}
+							case *ast.ReturnStmt:
+								for _, r := range x.Results {
+									if ast.Unparen(r) == ast.Expr(k) {
+										direct = true
+									}
+								}
+							}
+							return true
+						})
+						c.Check(direct, key, pr.Pos(k.Pos()), "the rows returned by Compact are neither bound to a variable, passed on, nor returned: they are removed from the combining frame and lost")
+						continue
+					}
+					name := expr(a.Lhs[0])
+					dropped := ""
+					var trail []string
+					fl.Walk(Loc{b, i + 1}, "", nil, Visitor{NoFacts: true,
+						Node: func(m ast.Node, x string, s *Step) (string, bool) {
+							if m == nd {
+								dropped = "the loop comes round to the next Compact"
+								trail = s.Trail()
+								return x, true
+							}
+							used := false
+							ast.Inspect(m, func(q ast.Node) bool {
+								switch y := q.(type) {
+								case *ast.CallExpr:
+									if fn.Pkg.CalleeName(y) == "sort.Sort" {
+										return true
+									}
+									for _, arg := range y.Args {
+										if expr(arg) == name {
+											used = true
+										}
+									}
+								case *ast.ReturnStmt:
+									for _, r := range y.Results {
+										if expr(r) == name {
+											used = true
+										}
+									}
+								}
+								return true
+							})
+							if used {
+								return x, true
+							}
+							if as, ok := m.(*ast.AssignStmt); ok {
+								for _, l := range as.Lhs {
+									if expr(l) == name {
+										dropped = "the variable is overwritten"
+										trail = s.Trail()
+										return x, true
+									}
+								}
+							}
+							return x, false
+						},
+						Exit: func(kind ExitKind, ret *ast.ReturnStmt, x string, s *Step) {
+							if kind == ExitPanic {
+								return
+							}
+							dropped = "the function returns"
+							trail = s.Trail()
+						}})
+					c.Check(dropped == "", key, pr.Pos(k.Pos()),
+						"the rows that Compact removed from the combining frame (held only by "+name+") are not handed on before "+dropped+": those rows — keys and their partial values — vanish from the result", trail...)
+				}
+			}
+		}
+	}
+	c.Floor("Compact call sites", n, 3)
+}
